@@ -13,6 +13,12 @@ ASSUME = ("Trusted base: g++ 12.2 / clang++ 14 (front end = interpreter of the t
           "vf/model + harness/*.hh, which contains no Au code. ")
 
 CHECKS = {
+    "C14": dict(level="exploration", technique="exhaustive enumeration of unit-pair x rep-pair programs and 8-bit operand squares vs the model algebra and raw operators",
+                text="Ordered pairs over the library's 57 units and 12 generated units: product and quotient collapse to a raw number exactly when the model says "
+                     "dimension 0 and magnitude 1, otherwise carry the exact product/quotient unit (Dim/Mag read out) and decltype of the raw operator; all "
+                     "11x11 rep pairs on 12 unit pairs; int_pow<-4..4>, sqrt, cbrt, 1/q; all 65536 int8/uint8 operand pairs on six unit pairs; accept/reject "
+                     "probes for integer division, unblock_int_div and as_raw_number against the documented rule.",
+                ref="DESIGN.md §6 C14"),
     "C17": dict(level="exploration", technique="exhaustive enumeration of duration types x counts and of ordered duration pairs x value squares vs std::chrono itself and exact 128-bit arithmetic",
                 text="44 duration types (4 reps x 11 periods) plus the named typedefs: as_quantity's rep/unit (unit ratio read out and compared with the exact "
                      "Period), implicit and as_chrono_duration round trips over all 16-bit counts and boundary windows (all 2^32 counts for 32-bit reps in thorough); "
